@@ -17,6 +17,28 @@ def MustLike (g : Grammar) (i : Nat) : Prop :=
     (nd.kind = .atom .success ∨ (∃ c, nd.kind = .must c) ∨
      (∃ cs, nd.kind = .seq cs ∧ ∀ c ∈ cs, ∃ ndc c', g[c]? = some ndc ∧ ndc.kind = .must c'))
 
+/-- A rule-level action class that neither vetoes nor throws. -/
+def RuleAct.plain (x : RuleAct) : Bool := x.throwMod == 0 && (!x.isBool || x.vetoMod == 0)
+
+/-- The actions named by `apply< … >` / `if_apply< R, … >` are `void`-like. -/
+def PlainRuleActs : Kind → Prop
+  | .ifApply _ acts => ∀ x ∈ acts, x.plain = true
+  | .applyR acts => ∀ x ∈ acts, x.plain = true
+  | _ => True
+
+theorem runActs_plain (cx : Ctx) (sd : Nat) (b e : Cursor) : ∀ acts : List RuleAct, (∀ x ∈ acts, x.plain = true) →
+    (runActs cx sd b e acts).1 = .ok
+  | [], _ => rfl
+  | x :: xs, h => by
+    have hx := h x (by simp)
+    simp only [RuleAct.plain, Bool.and_eq_true, beq_iff_eq, Bool.or_eq_true, Bool.not_eq_true'] at hx
+    have ht : x.spec.throws x.id (cx.rep b).pos (cx.rep e).pos = false := by
+      simp [ActionSpec.throws, RuleAct.spec, hx.1]
+    have hv : x.spec.vetoes x.id (cx.rep b).pos (cx.rep e).pos = false := by
+      rcases hx.2 with h1 | h1 <;> simp [ActionSpec.vetoes, RuleAct.spec, h1]
+    simp only [runActs, ht, hv]
+    exact runActs_plain cx sd b e xs (fun y hy => h y (by simp [hy]))
+
 /-- Conditions on the node table under which the refinement is stated: atoms whose meaning is a
     function of the byte offset, the hidden helper nodes are what the C++ templates create, and
     actions are `void`. -/
@@ -26,6 +48,8 @@ structure WFT (cx : Ctx) : Prop where
     ∃ nd' : Node, cx.g[na]? = some nd' ∧ nd'.kind = .notAt c
   ifm : ∀ (i : Nat) (nd : Node) (d : Bool) (c mn : Nat), cx.g[i]? = some nd → nd.kind = .ifMust d c mn → MustLike cx.g mn
   plain : ∀ (env : Env) (i : Nat) (nd : Node), cx.g[i]? = some nd → PlainAct (cx.actOf env i nd)
+  racts : ∀ (i : Nat) (nd : Node), cx.g[i]? = some nd → PlainRuleActs nd.kind
+  nomsgs : cx.msgs = []        -- the run's control is not a `must_if< Errors >` control (which turns local failures into global ones)
 
 theorem Gof_of {g : Grammar} {i : Nat} {nd : Node} (h : g[i]? = some nd) : Gof g i = some (expandKind nd.kind) := by
   simp [Gof, h]
@@ -441,6 +465,41 @@ theorem body_sem (k i : Nat) (nd : Node) (hn : cx.g[i]? = some nd) (a : AMode) (
     obtain ⟨r0, h0, rfl⟩ := h
     obtain ⟨o, ho, hsem⟩ := hs _ _ _ _ _ _ hv h0
     exact ⟨o, (absO_congr (r := r0) rfl rfl).trans ho, hsem⟩
+  | control kc c => rw [hk] at h; simp only [body] at h; exact hs _ _ _ _ _ _ hv h
+  | ifApply c acts =>
+    have hpl : ∀ x ∈ acts, x.plain = true := by
+      have := wf.racts i nd hn
+      rw [hk] at this
+      exact this
+    rw [hk] at h
+    simp only [body] at h
+    split at h
+    · simp only [Option.map_eq_some_iff] at h
+      obtain ⟨r0, h0, rfl⟩ := h
+      have s0 := hs _ _ _ _ _ _ hv h0
+      split
+      · rename_i hok
+        refine (s0.congr ?_).guard _ _
+        apply absO_congr
+        · simp [runActs_plain cx _ _ _ acts hpl, hok]
+        · rfl
+      · exact s0.guard _ _
+    · exact hs _ _ _ _ _ _ hv h
+  | applyR acts =>
+    have hpl : ∀ x ∈ acts, x.plain = true := by
+      have := wf.racts i nd hn
+      rw [hk] at this
+      exact this
+    rw [hk] at h
+    simp only [body] at h
+    split at h
+    · simp only [Option.some.injEq] at h
+      subst h
+      refine ⟨.ok st.cur.pos, ?_, .eps⟩
+      simp [absO, Ret.dropOnFail, runActs_plain cx _ _ _ acts hpl]
+    · simp only [Option.some.injEq] at h
+      subst h
+      exact ⟨.ok st.cur.pos, by simp [absO], .eps⟩
 
 end body
 
